@@ -1,4 +1,5 @@
 import LapyVerif.Bridge.C20
+import LapyVerif.Bridge.ShapeDNA
 /- axiom audit of C20 -/
 #print axioms LapyVerif.Props.C20.inv_step
 #print axioms LapyVerif.Props.C20.inv_history
@@ -15,3 +16,7 @@ import LapyVerif.Bridge.C20
 #print axioms LapyVerif.Bridge.purity_table
 #print axioms LapyVerif.Bridge.tri_history
 #print axioms LapyVerif.Bridge.tet_history
+#print axioms LapyVerif.Bridge.sdna_normalize
+#print axioms LapyVerif.Bridge.sdna_facts
+#print axioms LapyVerif.Bridge.sdna_fields
+#print axioms LapyVerif.Bridge.census_ShapeDNA_pcCount
